@@ -1,12 +1,14 @@
 use crate::engine::Ctx;
 use crate::report::Tier;
 
+pub mod c14;
 pub mod c15;
 
 pub type BoxedScenario = Box<dyn Fn(&mut Ctx) + Sync>;
 
 pub fn run(prop: &str, tier: Tier, seed: u64) -> Option<i32> {
     Some(match prop {
+        "C14" => c14::run(tier, seed),
         "C15" => c15::run(tier, seed),
         _ => return None,
     })
@@ -14,6 +16,7 @@ pub fn run(prop: &str, tier: Tier, seed: u64) -> Option<i32> {
 
 pub fn scenario(prop: &str, name: &str, tier: Tier) -> Option<BoxedScenario> {
     match prop {
+        "C14" => c14::scenario(name, tier),
         "C15" => c15::scenario(name, tier),
         _ => None,
     }
